@@ -5,17 +5,30 @@
    in Model/Namespace.v: the namespace-sensitive mechanisms (namespace extraction, group dispatch, prefix syntax
    check, schema_83_props of a group, check_tag_formatting, check_capitalization, required/unique through
    get_tags_with_attribute) are concrete; all other rules are arbitrary functions R1 R2 R3 of the resolved tree.
-   The schema is an arbitrary resolver (s_find) -- theorems hold for ALL schemas, groups and annotations. *)
+   The schema is an arbitrary resolver (s_find) -- theorems hold for ALL schemas, groups and annotations.
+
+   The model has a switch [fixed]: true = the code as it is now, i.e. after the repairs of C13-F2
+   (check_tag_formatting looks after the namespace), C13-F3 (check_capitalization ignores the namespace) and
+   C13-F4 (set_schema_prefix requires an ASCII namespace); false = the code before them.  PART 1 states the
+   theorems about the code as it is now; PART 2 keeps the partial theorem and the refutations of the unrepaired
+   code as the record of the repaired defects.  C13-F1 (one character-rule generation for a whole group) is NOT
+   repaired: it is the explicit hypothesis [schema83_group G = schema83_single Sp] and stays refuted below. *)
 From Coq Require Import List NArith.
 From HV Require Import Base.Res Base.Str Base.SchemaData Model.Namespace Model.NamespaceX
   Proofs.NamespaceProofs Proofs.NamespaceData Gen.Repo_c13.
 Import ListNotations.
 
+
+(* ====================================================================== PART 1: the code as it is now *)
 Section Statements.
 Variable isalpha_c isprint_c : N -> bool.
 Variable foldc titlec lowerc : N -> N.
 Variable R1 R2 R3 : bool -> ann rtag -> list code.
-Notation V := (verdict isalpha_c isprint_c foldc titlec lowerc R1 R2 R3).
+(* facts about the Unicode tables; discharged for CPython's tables by C13_cpython_tables below *)
+Hypothesis HA : forall c, is_ascii_letter c = true -> isalpha_c c = true.
+Hypothesis HP : forall c, (32 <= c <= 126)%N -> isprint_c c = true.
+Hypothesis HC : forall c, isalpha_c c = true -> (c <= 127)%N -> is_ascii_letter c = true.
+Notation V := (verdict isalpha_c isprint_c foldc titlec lowerc true R1 R2 R3).
 
 (* Dispatch: a tag written p:t is looked up in p's schema exactly as t is, and relabelled with p. *)
 Theorem C13_resolve_group_prefix : forall (G : group) (p : str) (Sp : sch) (t : str),
@@ -29,38 +42,31 @@ Theorem C13_resolve_group_unprefixed : forall (G : group) (Sp : sch) (t : str),
   resolve_tag (cfg_group G) t = resolve_tag (cfg_single ([], Sp)) t.
 Proof. exact resolve_group_unprefixed. Qed.
 
-(* FULL STATEMENT (clause 1 of the property):
-     forall G p Sp a, lookup p G = Some Sp -> wf_ns p -> all_unprefixed a ->
-       V (cfg_group G) (prefix_ann p a) = V (cfg_single ([], Sp)) a.
-   It is FALSE of the faithful model (four refutations below).  Proved with the explicit side conditions:
-   the remaining rules are namespace-blind (RUniform), p is alphabetic and its characters pass the group's
-   character rule, the group uses the same character-rule generation as p's schema, the slash pattern and the
-   capitalisation rule answer the same with and without p on every tag, and the other schemas contribute no
-   required/unique names that match (ForeignSilent; discharged syntactically by C13_foreign_silent_incomparable
-   and on the bundled schemas by C13_bundled_side_condition). *)
-Theorem C13_prefixed_equiv_partial : forall (G : group) (p : str) (Sp : sch) (a : ann str),
+(* Clause 1.  For every group, every namespace p the loader can set (ASCII letters + ':'), every schema whose
+   resolver returns remainders that are part of the text (FindFits) and every annotation tree: the annotation
+   written with p on every tag is judged by the group exactly as the unprefixed annotation is judged by p's
+   schema alone.  Since the repairs there is no condition on slashes, capitalisation or the characters of p.
+   Remaining explicit side conditions: the other rules are namespace-blind (RUniform); the group and p's schema
+   use the same character-rule generation (unrepaired C13-F1; refuted without it below); the other schemas
+   contribute no matching required/unique names (ForeignSilent; C13_foreign_silent_incomparable,
+   C13_bundled_side_condition). *)
+Theorem C13_prefixed_equiv : forall (G : group) (p : str) (Sp : sch) (a : ann str),
   RUniform R1 -> RUniform R2 -> RUniform R3 ->
-  NoDup (map fst G) -> lookup p G = Some Sp -> wf_ns p ->
-  str_isalpha isalpha_c (drop_last p) = true ->
+  NoDup (map fst G) -> lookup p G = Some Sp -> ns_ok p -> FindFits Sp ->
   schema83_group G = schema83_single Sp ->
-  char_issues isprint_c (schema83_group G) p = [] ->
   all_unprefixed a ->
-  Forall (fun t => fmt_count (p ++ t) = fmt_count t) (ann_tags a) ->
-  Forall (fun r => check_capitalization titlec lowerc (set_ns p r) = check_capitalization titlec lowerc r)
-         (ann_tags (resolved (cfg_single ([], Sp)) a)) ->
   ForeignSilent foldc G p (map (set_ns p) (ann_tags (resolved (cfg_single ([], Sp)) a))) ->
   V (cfg_group G) (prefix_ann p a) = V (cfg_single ([], Sp)) a.
-Proof. exact (prefixed_equiv_partial isalpha_c isprint_c foldc titlec lowerc R1 R2 R3). Qed.
+Proof. exact (prefixed_equiv isalpha_c isprint_c foldc titlec lowerc R1 R2 R3 HA HP). Qed.
 
-(* Clause 2: an unprefixed annotation is judged as against the unprefixed schema alone.  FULL STATEMENT has
-   no generation / ForeignSilent hypotheses and is false (C13_unprefixed_equiv_refuted_mixed_generation). *)
-Theorem C13_unprefixed_equiv_partial : forall (G : group) (Sp : sch) (a : ann str),
+(* Clause 2: an unprefixed annotation is judged as against the unprefixed schema alone (same two side conditions). *)
+Theorem C13_unprefixed_equiv : forall (G : group) (Sp : sch) (a : ann str),
   NoDup (map fst G) -> lookup [] G = Some Sp ->
   schema83_group G = schema83_single Sp ->
   all_unprefixed a ->
   ForeignSilent foldc G [] (ann_tags (resolved (cfg_single ([], Sp)) a)) ->
   V (cfg_group G) a = V (cfg_single ([], Sp)) a.
-Proof. exact (unprefixed_equiv_partial isalpha_c isprint_c foldc titlec lowerc R1 R2 R3). Qed.
+Proof. exact (unprefixed_equiv_partial isalpha_c isprint_c foldc titlec lowerc R1 R2 R3 true). Qed.
 
 (* Clause 3: a tag whose prefix is not loaded, or not alphabetic, makes the verdict an error -- for every
    group, every annotation and whatever the other rules say. *)
@@ -68,12 +74,12 @@ Theorem C13_unknown_or_bad_prefix_is_error : forall (G : group) (a : ann str) (t
   In t (ann_tags a) -> get_schema_namespace t <> [] ->
   lookup (get_schema_namespace t) G = None \/ str_isalpha isalpha_c (drop_last (get_schema_namespace t)) = false ->
   any_error (V (cfg_group G) a) = true.
-Proof. exact (unknown_or_bad_prefix_is_error isalpha_c isprint_c foldc titlec lowerc R1 R2 R3). Qed.
+Proof. exact (unknown_or_bad_prefix_is_error isalpha_c isprint_c foldc titlec lowerc R1 R2 R3 true). Qed.
 
 Theorem C13_foreign_prefix_single_is_error : forall (L : loaded) (a : ann str) (t : str),
   In t (ann_tags a) -> get_schema_namespace t <> fst L ->
   any_error (V (cfg_single L) a) = true.
-Proof. exact (foreign_prefix_single_is_error isalpha_c isprint_c foldc titlec lowerc R1 R2 R3). Qed.
+Proof. exact (foreign_prefix_single_is_error isalpha_c isprint_c foldc titlec lowerc R1 R2 R3 true). Qed.
 
 (* discharging ForeignSilent from data *)
 Theorem C13_foreign_silent_incomparable : forall (G : group) (p : str) (tags : list rtag),
@@ -85,10 +91,10 @@ Theorem C13_foreign_silent_incomparable : forall (G : group) (p : str) (tags : l
   ForeignSilent foldc G p tags.
 Proof. exact (foreign_silent_incomparable foldc). Qed.
 
-(* only namespaces that are alphabetic text + ':' can be set on a schema *)
-Theorem C13_set_schema_prefix_ok : forall ns ns' : str,
-  set_schema_prefix isalpha_c ns = Ok ns' -> ns' = [] \/ str_isalpha isalpha_c (drop_last ns') = true.
-Proof. exact (set_schema_prefix_ok isalpha_c). Qed.
+(* the namespaces the (repaired) loader can put on a schema are exactly ASCII letters + ':' *)
+Theorem C13_loaded_namespace_ok : forall ns ns' : str,
+  set_schema_prefix isalpha_c true ns = Ok ns' -> ns' = [] \/ ns_ok ns'.
+Proof. exact (loaded_namespace_ok isalpha_c HC). Qed.
 
 (* "loading the same library twice is refused": the version list is refused exactly when two of its items
    have the same prefix and the same version text; the refusal surfaces from load_schema_version. *)
@@ -96,65 +102,55 @@ Theorem C13_same_library_twice_refused : forall (rp : repo) (l1 : list str) (v :
     (l3 : list str),
   split_ns v = split_ns v' ->
   parse_version_list (l1 ++ v :: l2 ++ v' :: l3) = LErr SCHEMA_DUPLICATE_LIBRARY /\
-  load_schema_version isalpha_c rp (l1 ++ v :: l2 ++ v' :: l3) = LErr SCHEMA_DUPLICATE_LIBRARY.
-Proof. exact (same_library_twice_refused isalpha_c). Qed.
+  load_schema_version isalpha_c true rp (l1 ++ v :: l2 ++ v' :: l3) = LErr SCHEMA_DUPLICATE_LIBRARY.
+Proof. exact (same_library_twice_refused isalpha_c true). Qed.
 
 Theorem C13_load_rest_clash_refused : forall (rp : repo) (v : str) (rest : list str) (ns : str) (first L : lschema),
-  load_sub isalpha_c rp v ns (Some first) = LOk L -> t_dups (l_table L) <> [] ->
-  load_rest isalpha_c rp (v :: rest) ns first = LErr SCHEMA_DUPLICATE_NAMES.
-Proof. exact (load_rest_clash_refused isalpha_c). Qed.
+  load_sub isalpha_c true rp v ns (Some first) = LOk L -> t_dups (l_table L) <> [] ->
+  load_rest isalpha_c true rp (v :: rest) ns first = LErr SCHEMA_DUPLICATE_NAMES.
+Proof. exact (load_rest_clash_refused isalpha_c true). Qed.
 End Statements.
 
 Print Assumptions C13_resolve_group_prefix.
 Print Assumptions C13_resolve_group_unprefixed.
-Print Assumptions C13_prefixed_equiv_partial.
-Print Assumptions C13_unprefixed_equiv_partial.
+Print Assumptions C13_prefixed_equiv.
+Print Assumptions C13_unprefixed_equiv.
 Print Assumptions C13_unknown_or_bad_prefix_is_error.
 Print Assumptions C13_foreign_prefix_single_is_error.
 Print Assumptions C13_foreign_silent_incomparable.
-Print Assumptions C13_set_schema_prefix_ok.
+Print Assumptions C13_loaded_namespace_ok.
 Print Assumptions C13_same_library_twice_refused.
 Print Assumptions C13_load_rest_clash_refused.
 
-(* the slash pattern under a namespace: the leading-slash alternative can never fire *)
-Theorem C13_fmt_count_prefixed : forall p t : str,
-  p <> [] -> forallb (fun c => negb (is_sts c)) p = true -> fmt_count (p ++ t) = fmt_mid 0 false t.
-Proof. exact fmt_count_prefixed. Qed.
-Print Assumptions C13_fmt_count_prefixed.
+(* the FindFits hypothesis of C13_prefixed_equiv holds for every schema built by the loader model: the remainder
+   returned by the transcription of HedSchema._find_tag_entry is never longer than the text it was given *)
+Theorem C13_loaded_schema_fits : forall L : lschema, FindFits (sch_of L).
+Proof. exact sch_of_fits. Qed.
+Print Assumptions C13_loaded_schema_fits.
 
-(* Refutations of the full statement on the faithful model (validator with no further rules, CPython's
-   isalpha/isprintable tables).  Each witness is replayed on the implementation by the harness. *)
-Theorem C13_prefixed_equiv_refuted_leading_slash :
-  exists G p Sp a, structural G p Sp a /\ schema83_group G = schema83_single Sp /\
-    x_verdict (cfg_group G) (prefix_ann p a) <> x_verdict (cfg_single ([], Sp)) a.
-Proof. exact prefixed_equiv_refuted_leading_slash. Qed.
-Print Assumptions C13_prefixed_equiv_refuted_leading_slash.
+(* CPython's isalpha/isprintable tables (Gen/UniTable_c13.v) satisfy the three table hypotheses above *)
+Theorem C13_cpython_tables :
+  (forall c, is_ascii_letter c = true -> x_isalpha c = true) /\
+  (forall c, (32 <= c <= 126)%N -> x_isprint c = true) /\
+  (forall c, x_isalpha c = true -> (c <= 127)%N -> is_ascii_letter c = true).
+Proof. exact (conj x_HA (conj x_HP x_HC)). Qed.
+Print Assumptions C13_cpython_tables.
 
-Theorem C13_prefixed_equiv_refuted_capitalization :
-  exists G p Sp a, structural G p Sp a /\ schema83_group G = schema83_single Sp /\
-    x_verdict (cfg_group G) (prefix_ann p a) <> x_verdict (cfg_single ([], Sp)) a.
-Proof. exact prefixed_equiv_refuted_capitalization. Qed.
-Print Assumptions C13_prefixed_equiv_refuted_capitalization.
-
+(* C13-F1 (NOT repaired): without the generation hypothesis both clauses are false of the code as it is now.
+   A group mixing an 8.3-generation schema with an 8.2-partnered library validates the library's tags with the
+   8.3 character rules: "tl:Label/é" is clean, "Label/é" against the library alone is not; and conversely. *)
 Theorem C13_prefixed_equiv_refuted_mixed_generation :
   exists G p Sp a, structural G p Sp a /\
-    x_verdict (cfg_group G) (prefix_ann p a) = [] /\ x_verdict (cfg_single ([], Sp)) a = [CharacterInvalid].
+    x_verdict true (cfg_group G) (prefix_ann p a) = [] /\ x_verdict true (cfg_single ([], Sp)) a = [CharacterInvalid].
 Proof. exact prefixed_equiv_refuted_mixed_generation. Qed.
 Print Assumptions C13_prefixed_equiv_refuted_mixed_generation.
 
 Theorem C13_unprefixed_equiv_refuted_mixed_generation :
   exists G Sp a, NoDup (map fst G) /\ lookup [] G = Some Sp /\
     Forall (fun t => get_schema_namespace t = []) (ann_tags a) /\
-    x_verdict (cfg_group G) a = [] /\ x_verdict (cfg_single ([], Sp)) a = [CharacterInvalid].
+    x_verdict true (cfg_group G) a = [] /\ x_verdict true (cfg_single ([], Sp)) a = [CharacterInvalid].
 Proof. exact unprefixed_equiv_refuted_mixed_generation. Qed.
 Print Assumptions C13_unprefixed_equiv_refuted_mixed_generation.
-
-Theorem C13_prefixed_equiv_refuted_nonascii_prefix :
-  exists G p Sp a, structural G p Sp a /\ schema83_group G = schema83_single Sp /\
-    x_set_schema_prefix p = Ok p /\
-    x_verdict (cfg_group G) (prefix_ann p a) = [CharacterInvalid] /\ x_verdict (cfg_single ([], Sp)) a = [].
-Proof. exact prefixed_equiv_refuted_nonascii_prefix. Qed.
-Print Assumptions C13_prefixed_equiv_refuted_nonascii_prefix.
 
 (* Partner merge at the level of tag tables, for ALL tables and entry lists: entries that do not collide
    with a standard name leave every standard lookup (long, intermediate and short form) unchanged ... *)
@@ -203,15 +199,75 @@ Theorem C13_bundled_side_condition : bundled_side_condition = true.
 Proof. exact bundled_side_condition_holds. Qed.
 Print Assumptions C13_bundled_side_condition.
 
-(* the loader model on the bundled files: group of three, merge of two libraries, and the four refusals *)
+(* the loader model on the bundled files: group of three, merge of two libraries, and the five refusals
+   (the last one: a non-ASCII namespace, refused since the repair of C13-F4) *)
 Theorem C13_bundled_loads :
-  map (fun l => summary (x_load_schema_version bundled_repo l)) bundled_load_cases = bundled_load_expected.
+  map (fun l => summary (x_load_schema_version true bundled_repo l)) bundled_load_cases = bundled_load_expected.
 Proof. exact bundled_loads. Qed.
 Print Assumptions C13_bundled_loads.
 
-(* non-vacuity: all hypotheses of C13_prefixed_equiv_partial are met by a nested annotation *)
+(* non-vacuity: all hypotheses of C13_prefixed_equiv are met by nested annotations, among them the witnesses
+   "/Red/" and "3a" that refute the unrepaired code *)
 Example C13_nonvacuous :
-  x_verdict (cfg_group G83) (prefix_ann ns_tl ex_ann) = x_verdict (cfg_single ([], lib83)) ex_ann
+  x_verdict true (cfg_group G83) (prefix_ann ns_tl ex_ann) = x_verdict true (cfg_single ([], lib83)) ex_ann
+  /\ x_verdict true (cfg_group G83) (prefix_ann ns_tl ex_ann2) = x_verdict true (cfg_single ([], lib83)) ex_ann2
   /\ ann_tags (prefix_ann ns_tl ex_ann) = [ns_tl ++ s_red; ns_tl ++ s_blue; ns_tl ++ s_red].
 Proof. exact prefixed_equiv_nonvacuous. Qed.
 Print Assumptions C13_nonvacuous.
+
+(* ====================================================================== PART 2: record of the repaired defects
+   (fixed = false: the code before the fix: commits for C13-F2, C13-F3, C13-F4) *)
+
+(* what could be proved of the unrepaired code: the equivalence only where the slash pattern and the
+   capitalisation rule happened to agree and the characters of the namespace passed the character rule *)
+Theorem C13_prefixed_equiv_partial_before_repairs :
+  forall (isalpha_c isprint_c : N -> bool) (foldc titlec lowerc : N -> N) (R1 R2 R3 : bool -> ann rtag -> list code)
+         (G : group) (p : str) (Sp : sch) (a : ann str),
+  RUniform R1 -> RUniform R2 -> RUniform R3 ->
+  NoDup (map fst G) -> lookup p G = Some Sp -> wf_ns p ->
+  str_isalpha isalpha_c (drop_last p) = true ->
+  schema83_group G = schema83_single Sp ->
+  char_issues isprint_c (schema83_group G) p = [] ->
+  all_unprefixed a ->
+  Forall (fun t => fmt_count (p ++ t) = fmt_count t) (ann_tags a) ->
+  Forall (fun r => check_capitalization titlec lowerc false (set_ns p r) = check_capitalization titlec lowerc false r)
+         (ann_tags (resolved (cfg_single ([], Sp)) a)) ->
+  ForeignSilent foldc G p (map (set_ns p) (ann_tags (resolved (cfg_single ([], Sp)) a))) ->
+  verdict isalpha_c isprint_c foldc titlec lowerc false R1 R2 R3 (cfg_group G) (prefix_ann p a) =
+  verdict isalpha_c isprint_c foldc titlec lowerc false R1 R2 R3 (cfg_single ([], Sp)) a.
+Proof. exact prefixed_equiv_partial. Qed.
+Print Assumptions C13_prefixed_equiv_partial_before_repairs.
+
+(* the slash pattern under a namespace: the leading-slash alternative could never fire (C13-F2) *)
+Theorem C13_fmt_count_prefixed : forall p t : str,
+  p <> [] -> forallb (fun c => negb (is_sts c)) p = true -> fmt_count (p ++ t) = fmt_mid 0 false t.
+Proof. exact fmt_count_prefixed. Qed.
+Print Assumptions C13_fmt_count_prefixed.
+
+(* C13-F2 (repaired): "tl:/Red/" got one NODE_NAME_EMPTY, "/Red/" two *)
+Theorem C13_prefixed_equiv_refuted_leading_slash_before_repair :
+  exists G p Sp a, structural G p Sp a /\ schema83_group G = schema83_single Sp /\
+    x_verdict false (cfg_group G) (prefix_ann p a) <> x_verdict false (cfg_single ([], Sp)) a.
+Proof. exact prefixed_equiv_refuted_leading_slash. Qed.
+Print Assumptions C13_prefixed_equiv_refuted_leading_slash_before_repair.
+
+(* C13-F3 (repaired): "tl:3a" got a STYLE_WARNING, "3a" did not *)
+Theorem C13_prefixed_equiv_refuted_capitalization_before_repair :
+  exists G p Sp a, structural G p Sp a /\ schema83_group G = schema83_single Sp /\
+    x_verdict false (cfg_group G) (prefix_ann p a) <> x_verdict false (cfg_single ([], Sp)) a.
+Proof. exact prefixed_equiv_refuted_capitalization. Qed.
+Print Assumptions C13_prefixed_equiv_refuted_capitalization_before_repair.
+
+(* C13-F4 (repaired): "é:" was accepted as a namespace although every tag written with it is CHARACTER_INVALID
+   under the pre-8.3 rules; it is refused now *)
+Theorem C13_prefixed_equiv_refuted_nonascii_prefix_before_repair :
+  exists G p Sp a, structural G p Sp a /\ schema83_group G = schema83_single Sp /\
+    x_set_schema_prefix false p = Ok p /\
+    x_verdict false (cfg_group G) (prefix_ann p a) = [CharacterInvalid] /\ x_verdict false (cfg_single ([], Sp)) a = [].
+Proof. exact prefixed_equiv_refuted_nonascii_prefix. Qed.
+Print Assumptions C13_prefixed_equiv_refuted_nonascii_prefix_before_repair.
+
+Theorem C13_nonascii_namespace_refused_now :
+  x_set_schema_prefix false ns_e_acute = Ok ns_e_acute /\ x_set_schema_prefix true ns_e_acute = Exn HedFileError.
+Proof. exact nonascii_namespace_refused_now. Qed.
+Print Assumptions C13_nonascii_namespace_refused_now.
